@@ -4,7 +4,7 @@
    (duration + exception class or reply message); `resolve_with fuel sc c cache env` is one
    Resolver.resolve call once the candidate names c_qnames are known. *)
 From DV Require Import Base.Prelude Model.NameM Model.ResolM.
-From DV Require Import Proofs.ResolBase Proofs.ResolTerm Proofs.ResolTrace Proofs.ResolSpec Proofs.ResolCand Proofs.ResolChain Proofs.ResolMain.
+From DV Require Import Proofs.ResolBase Proofs.ResolTerm Proofs.ResolTrace Proofs.ResolSpec Proofs.ResolCand Proofs.ResolChain Proofs.ResolBackoff Proofs.ResolMain.
 Open Scope Z_scope.
 
 (* Termination within the lifetime, for every script whose clock does not run backwards:
@@ -124,6 +124,22 @@ Theorem candidates_in_order : forall sc c ch fuel e f s' e',
                          ((ev_left b < ev_left a)%nat -> nx_accepts (ev_obs a) <> None)) new.
 Proof. exact candidates_in_order_resolve. Qed.
 Print Assumptions candidates_in_order.
+
+(* The back-off law (ev_level = the sleep the next re-arm of the round will take): the first query is
+   not delayed and announces 0.1 s; for consecutive queries a, b for the same candidate either b is
+   not delayed and announces the same, or b sleeps exactly what a announced and announces twice as
+   much, capped at 2 s; the first query for a new candidate is not delayed and announces 0.1 s. *)
+Theorem backoff_law : forall sc c ch fuel e f s' e',
+  resolve_with fuel sc c ch e = (f, s', e') -> f <> FFuel ->
+  exists new, e_trace e' = e_trace e ++ new /\
+    adjacent (fun a b =>
+      if Nat.eqb (ev_left b) (ev_left a)
+      then (ev_backoff b = 0 /\ ev_level b = ev_level a) \/
+           (ev_backoff b = ev_level a /\ ev_level b = Z.min (ev_level a * 2) 2000)
+      else ev_backoff b = 0 /\ ev_level b = 100) new /\
+    (forall a l, new = a :: l -> ev_backoff a = 0 /\ ev_level a = 100).
+Proof. exact backoff_law_resolve. Qed.
+Print Assumptions backoff_law.
 
 (* The answer follows the CNAME chain: the CNAME RRsets followed form a path in the answer section
    from the question name to the canonical name, fewer than MAX_CHAIN = 16 of them (whatever loops
